@@ -189,18 +189,29 @@ def main():
     bounded_runs = []
     if not violations:
         import replay
+        bl = []
         for wsc in spec.get("bounded", []):
+            if wsc.get("kind") == "lib":
+                bl.extend(getattr(registry, wsc["witnesses"]))
+            else:
+                bl.append(wsc)
+        if any(x.get("kind") != "cli" for x in bl):
+            okb, errb = replay.build()      # the replay crate is rebuilt from /repo's working tree
+            if not okb:
+                print(f"UNDECIDED property={prop}: the replay crate does not build against the current tree: {errb[-300:]}")
+                return 2
+        for wsc in bl:
             try:
                 v, j = replay.run_witness(wsc)
             except Exception as e:
                 v, j = False, dict(error=str(e))
-            bounded_runs.append(dict(scenario=wsc.get("scenario"), violated=v, detail=j.get("detail") or j.get("error") or ""))
+            bounded_runs.append(dict(scenario=wsc.get("scenario") or ("library witness: " + (wsc.get("src") or "")[:60]), violated=v, detail=j.get("detail") or j.get("error") or ""))
             if v:
                 kf = next((k for k in known if k["prop"] == prop and k["label"] == "bounded:" + str(wsc.get("scenario"))), None)
                 if kf:
                     print(f"KNOWN-FINDING: property={prop} bounded scenario {wsc.get('scenario')} — {kf['text']}")
                     continue
-                violations.append(dict(unit="cli", fs="-", label="bounded:" + str(wsc.get("scenario")), text="bounded CLI scenario (stand-in for clauses outside every contract)",
+                violations.append(dict(unit="cli", fs="-", label="bounded:" + str(wsc.get("scenario") or "library-witness"), text="bounded CLI scenario (stand-in for clauses outside every contract)",
                                        diag=dict(message=j.get("detail"), fn="stylua (binary)", rendered=json.dumps(j)[:3000]), res=None, scenario=wsc, scenario_result=j))
     spec["_bounded_runs"] = bounded_runs
 
